@@ -838,3 +838,37 @@ twin('c11-flag-truthy', 'C11', P, 'Process.DoGlobalIteration', 'if self.__first_
 twin('c11-local-temp', 'C11', P, 'Process.DoGlobalIteration',
      '                newpoint, oldpoint = self.method.CalculateIterationPoint()\n',
      '                pair = self.method.CalculateIterationPoint()\n                newpoint, oldpoint = pair\n')
+
+# ----------------------------------------------------------------------------- C18
+HG = PR + 'Hill/hill_generation.py'
+fire('c18-bounds-equal', 'C18', PR + 'rastrigin.py', 'Rastrigin.__init__', 'self.upperBoundOfFloatVariables.fill(1.8)',
+     'self.upperBoundOfFloatVariables.fill(-2.2)', 'R18.1')
+fire('c18-bounds-reversed', 'C18', PR + 'xsquared.py', 'XSquared.__init__', 'self.lowerBoundOfFloatVariables.fill(-1)',
+     'self.lowerBoundOfFloatVariables.fill(2)', 'R18.1')
+fire('c18-len-mismatch', 'C18', PR + 'shekel4.py', 'Shekel4.__init__',
+     'self.upperBoundOfFloatVariables = np.ndarray(shape=(self.dimension,), dtype=np.double)',
+     'self.upperBoundOfFloatVariables = np.ndarray(shape=(self.dimension + 1,), dtype=np.double)', 'R18.1')
+fire('c18-dimension-mismatch', 'C18', PR + 'grishagin.py', 'Grishagin.__init__', 'self.numberOfFloatVariables = self.dimension',
+     'self.numberOfFloatVariables = 3', 'R18.1')
+fire('c18-gkls-len', 'C18', PR + 'GKLS.py', 'GKLS.__init__', 'self.upperBoundOfFloatVariables = dimension * [1]',
+     'self.upperBoundOfFloatVariables = (dimension - 1) * [1]', 'R18.1')
+fire('c18-two-objectives', 'C18', PR + 'hill.py', 'Hill.__init__', 'self.numberOfObjectives = 1', 'self.numberOfObjectives = 2',
+     'R18.1')
+fire('c18-strongin-bound-missing', 'C18', PR + 'stronginC3.py', 'StronginC3.__init__',
+     '        self.upperBoundOfFloatVariables[1] = 3\n', '', 'R18.1')
+fire('c18-opt-outside', 'C18', PR + 'shekel4.py', 'Shekel4.__init__', 'pointfv.fill(4)', 'pointfv.fill(14)', 'R18.2')
+fire('c18-opt-strongin', 'C18', PR + 'stronginC3.py', 'StronginC3.__init__', 'pointfv[1] = 0.941176', 'pointfv[1] = 3.941176',
+     'R18.2')
+fire('c18-opt-column', 'C18', PR + 'hill.py', 'Hill.__init__', 'pointfv[0] = hillGen.minHill[self.fn][1]',
+     'pointfv[0] = hillGen.minHill[self.fn][0]', 'R18.2')
+fire('c18-opt-shekel-box', 'C18', PR + 'shekel.py', 'Shekel.__init__', 'self.upperBoundOfFloatVariables.fill(10)',
+     'self.upperBoundOfFloatVariables.fill(5)', 'R18.2')
+fire('c18-opt-len', 'C18', PR + 'rastrigin.py', 'Rastrigin.__init__',
+     'pointfv = np.ndarray(shape=(self.dimension), dtype=np.double)', 'pointfv = np.ndarray(shape=(1), dtype=np.double)', 'R18.2')
+fire('c18-table-value', 'C18', PR + 'grishagin_function/grishagin_generation.py', None,
+     '    0.603052, 0.408337,  # f(min1)=-13.51436', '    1.603052, 0.408337,  # f(min1)=-13.51436', 'R18.2')
+fire('c18-table-ragged', 'C18', PR + 'Shekel4/shekel4_generation.py', None, '    [7, 3.6, 7, 3.6],', '    [7, 3.6, 7],', None)
+twin('c18-fill-float', 'C18', PR + 'xsquared.py', 'XSquared.__init__', 'self.upperBoundOfFloatVariables.fill(1)',
+     'self.upperBoundOfFloatVariables.fill(1.0)')
+twin('c18-gkls-comp', 'C18', PR + 'GKLS.py', 'GKLS.__init__', 'self.lowerBoundOfFloatVariables = dimension * [-1]',
+     'self.lowerBoundOfFloatVariables = [-1 for _ in range(dimension)]')
